@@ -426,6 +426,13 @@ func (en *Env) evalCall(x ECall) Term {
 		if c.ss.IsSeq(a[0].Sort) {
 			return Term{app(string(a[0].Sort)+".len", a[0].S), SInt, tInt}
 		}
+		if a[0].Ty != nil {
+			if m, ok := types.Unalias(a[0].Ty).Underlying().(*types.Map); ok {
+				card := c.mapCard(c.ss.SortOf(m.Key()))
+				dom := app("select", c.heapGet(en.cur, mapDomKey(a[0].Ty)), a[0].S)
+				return Term{ite(app("=", a[0].S, "0"), "0", app(card, dom)), SInt, tInt}
+			}
+		}
 		en.fail("len of non-sequence")
 	case "cat":
 		a := args()
